@@ -260,7 +260,19 @@ def run(rep):
                      j=[str(z) for z in jn])
 
         # O2: LO composition through an intermediate scale
-        Q1 = 10 ** rng.uniform(0, 4)
+        # the intermediate scale lies in the property's domain too (0 < as(Q1)/2pi <= 0.1)
+        Q1 = None
+        for _try in range(30):
+            q_ = 10 ** rng.uniform(0, 4)
+            try:
+                a1_ = qcd.as2pf(p, nf, q_, a0, r20)
+            except (OverflowError, ZeroDivisionError, ValueError):
+                continue
+            if 0 < a1_ <= 0.1:
+                Q1 = q_
+                break
+        if Q1 is None:
+            Q1 = Q2
         th1 = mk(p, nf, scheme, Q1, r20, a0)
         Ea = E[:, 0]
         Eb = ev.evolop(th, jj, Q1, 'DIS')[:, 0]
